@@ -26,7 +26,7 @@ def gen_program(rng, idx, adversarial):
     lines = []
     org = {"code": 0, "data": 0x80000, "bss": 0x90000}
     cur = "code"
-    nstmt = rng.randint(3, 14)
+    nstmt = rng.randint(3, 14) if rng.random() > 0.04 else 0      # now and then a program of labels only
     used_org = 0x1000
     for k in range(nstmt):
         r = rng.random()
